@@ -11,6 +11,7 @@
        recorded step-boundary state, continue to the reference end state, and the trajectory must not change
    (c) hunt for the refuted clause (synchronize outside the mutex -> torn snapshot)            [known finding when it hits]
    (e) save/load of simulation B while simulation A's server thread handles requests (descriptor double close) [known finding when it hits]
+   (f) a heartbeat that also writes in the prologue call; (g) sim.steps(n) next to a serving simulation   [known findings]
    (d) -DAVX512 build: two WHFast512 simulations alternated vs separate                        [known finding]
 """
 import json, os, re, subprocess, sys, time
@@ -24,20 +25,39 @@ TOOLCHAIN_SYMS = re.compile(r"^(_DYNAMIC|_GLOBAL_OFFSET_TABLE_|__TMC_END__|__do_
 INTEGRATORS = ["leapfrog", "whfast", "saba", "eos", "janus", "ias15", "bs", "mercurius", "trace", "sei"]
 
 
-def drive(libdir, mode, params, timeout):
-    """run the driver in a child process; returns (result dict | None, diagnostic)"""
+def drive_once(libdir, mode, params, timeout):
+    """-> (result | None, diagnostic, kind) ; kind in ok / timeout / signal / error"""
     try:
         r = subprocess.run([vlib.PY, DRIVER, mode], env=vlib.pyenv(libdir), input=json.dumps(params), capture_output=True,
                            text=True, timeout=timeout)
     except subprocess.TimeoutExpired:
-        return None, "timeout after %ds" % timeout
+        return None, "timeout after %ds" % timeout, "timeout"
     lines = [l for l in r.stdout.strip().splitlines() if l.startswith("{")]
+    if r.returncode < 0:
+        return None, "killed by signal %d: %s" % (-r.returncode, (r.stdout + r.stderr)[-600:]), "signal"
     if r.returncode != 0 or not lines:
-        return None, "exit status %d: %s" % (r.returncode, (r.stdout + r.stderr)[-600:])
+        return None, "exit status %d: %s" % (r.returncode, (r.stdout + r.stderr)[-600:]), "error"
     try:
-        return json.loads(lines[-1]), ""
+        return json.loads(lines[-1]), "", "ok"
     except ValueError:
-        return None, "unparsable driver output: " + lines[-1][:300]
+        return None, "unparsable driver output: " + lines[-1][:300], "error"
+
+
+def drive(libdir, mode, params, timeout, attempts=3):
+    """run the driver in a child process.  A death by signal (segfault/abort inside the library) is reported at once; a timeout or
+    a Python-level failure (port taken, descriptor trouble, machine load) is retried with a doubled time budget and only reported
+    when every attempt fails, so that load never turns into a violation.  -> (result | None, diagnostic)"""
+    diags = []
+    for i in range(attempts):
+        res, diag, kind = drive_once(libdir, mode, params, timeout * (2 ** i))
+        if res is not None:
+            if diags:
+                res["_retries"] = diags
+            return res, ""
+        diags.append(diag[-300:])
+        if kind == "signal":
+            break
+    return None, " | ".join(diags)
 
 
 def writable_symbols(libdir):
@@ -147,6 +167,17 @@ def run(ctx):
     pt = {"seed": ctx.rng.randint(1, 10 ** 6), "N": ctx.scale(12000, 20000), "clients": 2, "seconds": ctx.scale(3, 12)}
     jobs.append(("torn:eft0", libdir, "torn", dict(pt, eft=0), 400))      # synchronize after the loop (inside the mutex since /repo 8c50374)
     jobs.append(("torn:eft1", libdir, "torn", dict(pt, eft=1, seed=pt["seed"] + 7), 400))   # synchronize inside reb_check_exit (inside the mutex since /repo 8306d1e)
+    # a user heartbeat that also writes when reb_simulation_integrate calls it in its prologue (outside the mutex)
+    pp = server_params(ctx, "leapfrog")
+    pp.update({"sleep_ms": 0.0, "tmax": 1.2, "calls": 60, "hb_prologue_too": True, "hb_gap_ms": 3, "continue": 0, "other_requests": False})
+    pp["spec"]["dt"] = 0.01
+    jobs.append(("prologue-heartbeat", libdir, "server", pp, 240))
+    # sim.steps(n) / sim.step(): reb_simulation_step without the mutex
+    ps = {"seed": ctx.rng.randint(1, 10 ** 6), "spec": {"integrator": ctx.rng.choice(["leapfrog", "whfast", "ias15"]), "n": 3,
+          "seed": ctx.rng.randint(1, 10 ** 6), "dt": 0.01}, "sleep_ms": 4, "nsteps": 40, "clients": 2, "single_call": ctx.rng.random() < 0.5}
+    if ps["spec"]["integrator"] == "ias15":
+        ps["sleep_ms"] = 0.3
+    jobs.append(("steps-api", libdir, "steps", ps, 240))
     jobs.append(("fdclose", libdir, "fdclose", {"seed": ctx.rng.randint(1, 10 ** 6), "N": 3000, "clients": 3, "seconds": ctx.scale(4, 12)}, 200))
     if libavx:
         pw = {"seed": ctx.rng.randint(1, 10 ** 6), "steps": ctx.rng.randint(10, 40),
@@ -154,7 +185,7 @@ def run(ctx):
         jobs.append(("w512:mass", libavx, "w512", pw, 120))
         pw2 = dict(pw, a=[1.0, 1], b=[1.0, 0], seed=pw["seed"] + 1)
         jobs.append(("w512:gr", libavx, "w512", pw2, 120))
-    with ThreadPoolExecutor(max_workers=4) as ex:
+    with ThreadPoolExecutor(max_workers=int(os.environ.get("VERIF_C19_PAR", "4"))) as ex:
         results = list(ex.map(lambda j: (j, drive(j[1], j[2], j[3], j[4])), jobs))
 
     served_total = 0
@@ -193,6 +224,24 @@ def run(ctx):
                 m = res["mismatch"][0]
                 ctx.violation("concurrent:" + m["spec"]["integrator"], dict(replay, first_mismatch=m), True,
                               "simulation run concurrently with others ends in different bits than when run alone")
+        elif mode == "steps":
+            ctx.evaluations += res["served"]
+            ctx.case(key=("steps-api", params["spec"]["integrator"], params["single_call"]))
+            ctx.extra["steps_api"] = {k: res[k] for k in ("served", "boundaries", "not_a_boundary", "unparsable", "trajectory_equal")}
+            ctx.obligation("validation: trajectory of sim.steps() is the same with and without clients", res["trajectory_equal"], json.dumps(res)[:400])
+            if res["not_a_boundary"] or res["unparsable"]:
+                ctx.violation("server:step-api-without-mutex", dict(replay, result=res), True,
+                              "snapshots served while the user thread runs sim.steps(n)/sim.step() are mid-step states (reb_simulation_steps does not take the server mutex)")
+        elif mode == "server" and name == "prologue-heartbeat":
+            served_total += res["served"]
+            ctx.evaluations += res["served"]
+            ctx.case(key=("prologue-heartbeat", res["served"] > 0))
+            ctx.extra["prologue_heartbeat"] = {k: res[k] for k in ("served", "boundaries", "n_not_a_boundary", "unparsable", "trajectory_equal")}
+            ctx.obligation("validation: prologue-heartbeat scenario: trajectory unchanged by clients, bodies parse", res["trajectory_equal"] and not res["unparsable"], json.dumps(res)[:400])
+            if res["n_not_a_boundary"]:
+                ctx.violation("server:prologue-heartbeat-unlocked", dict(replay, result=res), True,
+                              "a user heartbeat that writes the simulation in two steps is also called in the prologue of reb_simulation_integrate, outside the "
+                              "mutex: served snapshots show one write without the other")
         elif mode == "server":
             served_total += res["served"]
             ctx.evaluations += res["served"]
